@@ -1379,6 +1379,12 @@ class OpHarness:
                     distinct.append((what, sch))
             self.record(ctx, oid + "/one-subscription-one-clock (clock readings, timers and clock-reading stages are on the same scheduler)", len(distinct) <= 1, kind="frame",
                         detail="; ".join(f"{what} {getattr(sch, 'name', sch)!s}" for what, sch in distinct))
+            own = self.env.vars.get("scheduler") if getattr(self, "env", None) is not None else None
+            if isinstance(own, Opaque) and own.kind == "scheduler":
+                # the scheduler handed to the OPERATOR is the one it keeps time on (the subscribe-time scheduler is only the fallback)
+                others = [(what, sch) for what, sch in distinct if sch is not own]
+                self.record(ctx, oid + "/keeps-time-on-the-scheduler-the-operator-was-given", not others, kind="frame",
+                            detail="; ".join(f"{what} {getattr(sch, 'name', sch)!s}" for what, sch in others))
         if getattr(self, "sub_sched", None) is None:
             return
         self.record(ctx, oid + "/hands-the-subscribe-time-scheduler-on-to-every-source-it-subscribes", not misses, kind="frame",
